@@ -77,6 +77,13 @@ def miri(suite, budget, shards, thorough, **args):
     return dict(flavour="miri", suite=suite, args=args, shards=shards * (2 if thorough else 1), budget=budget * (6 if thorough else 1), timeout=3400 if thorough else 400, counts_for_exhaustive=False)
 
 
+def exp_types(flavour, mon, kinds, coll, T, budget=3000, **extra):
+    """type sweep: every Expiration type x value sizes, clocks at both ends of the type's range"""
+    if flavour == "miri":
+        return miri("exp-types", 1, 8, T, mon=mon, kinds=kinds, coll=coll, len=48, **extra)
+    return dict(flavour=flavour, suite="exp-types", args=dict(mon=mon, kinds=kinds, coll=coll, **extra), shards=16, budget=budget * (8 if T else 1), seed_offset=77)
+
+
 LEVEL_TEXT = "exploration"
 
 
@@ -102,9 +109,12 @@ def _plan(prop, T):
                 dict(flavour="dbg", suite="sweep-line", args=dict(mon="pred,empty,phys", coll="tree"), shards=8, budget=160 * (6 if T else 1)),
                 dict(flavour="rel", suite="big", args=dict(max_n=4000000 if T else 400000, probes="kquery"), shards=16, timeout=3400 if T else 150),
                 miri("key-random", 128, 8, T, mon="pred,empty", coll="tree", **MIRI_KEY),
+                exp_types("dbg", "pred,empty", "key", "tree", T),
+                exp_types("rel", "pred,empty", "key", "tree", T),
+                exp_types("miri", "pred,empty", "key", "tree", T),
             ],
             rule="evaluation = one predecessor query (first_less / first_less_or_equal / first_less_or_equal_by with 3 monotone comparators) or is_empty compared with the flat reference model (greatest key satisfying the bound among entries with expiration > t); distinct non-trivial = distinct (reference contents relative to t, query kind, probe) with >= 2 live entries, plus every closed canonical physical state holding >= 2 entries",
-            require={"pred_compared_entry": 20000, "pred_compared_default": 2000, "q_with_expired_entry_on_search_path": 500, "q_that_physically_removed_entries": 1000, "q_with_t_equal_expiration_present": 1000, "op_insert_over_expired_equal_key": 500, "states": 2000, "big_key_queries": 100000, "max_entries_built": 300000},
+            require={"typed_pred_compared": 500000, "typed_histories_u8": 1000, "typed_histories_usize": 1000, "typed_ops_within_3_of_type_max": 100000, "pred_compared_entry": 20000, "pred_compared_default": 2000, "q_with_expired_entry_on_search_path": 500, "q_that_physically_removed_entries": 1000, "q_with_t_equal_expiration_present": 1000, "op_insert_over_expired_equal_key": 500, "states": 2000, "big_key_queries": 100000, "max_entries_built": 300000},
             exhaustive_claim=False,
             exhaustive_scope="closure complete for the key-closure parameter sets listed in monitor_counters (closure_states_*); random histories sample beyond",
             assumptions=["reference model: linear scan with predicate expiration > t", "histories generated inside the contract (distinct live keys, non-decreasing time between clears, expiration >= insertion time, monotone comparators)"],
@@ -120,9 +130,11 @@ def _plan(prop, T):
                 dict(flavour="rel", suite="key-random", args=dict(mon="get", coll="tree", profile="marathon", noexport=1), shards=16, budget=16, timeout=3400 if T else 150, seed_offset=61),
                 dict(flavour="rel", suite="big", args=dict(max_n=4000000 if T else 400000, probes="kquery"), shards=16, timeout=3400 if T else 150),
                 miri("key-random", 128, 8, T, mon="get", coll="tree", **MIRI_KEY),
+                exp_types("dbg", "get", "key", "tree", T),
+                exp_types("rel", "get", "key", "tree", T),
             ],
             rule="evaluation = one get_value compared with the reference (Some(id) iff an entry with that key has expiration > t); distinct non-trivial = distinct (reference contents relative to t, probe) with >= 2 live entries, plus closed canonical states with >= 2 entries",
-            require={"get_compared_hit": 5000, "get_compared_miss": 5000, "get_target_in_left_subtree": 300, "get_target_in_right_subtree": 300, "get_target_at_root": 100, "states": 2000, "big_key_queries": 100000},
+            require={"typed_get_compared": 300000, "typed_histories_u8": 1000, "typed_histories_i64": 1000, "get_compared_hit": 5000, "get_compared_miss": 5000, "get_target_in_left_subtree": 300, "get_target_in_right_subtree": 300, "get_target_at_root": 100, "states": 2000, "big_key_queries": 100000},
             exhaustive_scope="every closed state x get_value of every probe 0..=2u",
             assumptions=["reference model: linear scan", "in-contract histories"],
         )
@@ -138,9 +150,11 @@ def _plan(prop, T):
                 key_random("asan", mon, "both", 3200, T),
                 dict(flavour="rel", suite="export-size", args=dict(max_n=4000000 if T else 300000), shards=16, mem_limit=(24 if T else 8) * GB, timeout=3400 if T else 150),
                 miri("key-random", 96, 8, T, mon="export", coll="both", **MIRI_KEY),
+                exp_types("dbg", "export", "key", "both", T),
+                exp_types("rel", "export", "key", "both", T),
             ],
             rule="evaluation = one into_ordered_vec(t) (tree or list, on a fresh or cloned instance since export consumes) compared with the reference's live ids in key order; distinct non-trivial = distinct (reference contents relative to t, export time offset) with >= 2 live entries",
-            require={"op_export": 5000, "export_with_t_equal_expiration": 300, "export_with_expired_present": 500, "export_with_expired_successor_of_expired_node": 100, "export_with_previously_used_free_slots": 300, "export_dropping_expired_entries": 500, "max_entries_exported": 250000},
+            require={"typed_exports_compared": 20000, "typed_histories_u16": 1000, "op_export": 5000, "export_with_t_equal_expiration": 300, "export_with_expired_present": 500, "export_with_expired_successor_of_expired_node": 100, "export_with_previously_used_free_slots": 300, "export_dropping_expired_entries": 500, "max_entries_exported": 250000},
             exhaustive_scope="every closed state x export at t, t+1, .., t+R+1",
             assumptions=["reference model: filter expiration > t, sort by key", "in-contract histories"],
         )
@@ -155,6 +169,7 @@ def _plan(prop, T):
                 dict(flavour="rel", suite="key-random", args=dict(mon="structure", coll="tree", profile="marathon", noexport=1), shards=16, budget=16, timeout=3400 if T else 150, seed_offset=61),
                 dict(flavour="rel", suite="ord-random", args=dict(mon="structure", coll="maptree+settree", profile="marathon"), shards=16, budget=16 * 1, timeout=3400 if T else 150, seed_offset=62),
                 dict(flavour="rel", suite="big", args=dict(max_n=4000000 if T else 800000), shards=16, timeout=3400 if T else 150),
+                exp_types("dbg", "structure", "key", "tree", T),
             ],
             rule="evaluation = one hooked arena snapshot validated after a completed public call (links, strict key order, no red-red edge, equal black count, sentinel unlinked, height <= 2*log2(n+1)+1); distinct non-trivial = closed canonical shapes with >= 2 entries + distinct pre-removal configurations (children, colours of node/sibling/nephews/parent, side) + distinct (n, height) pairs of large trees",
             require={
@@ -178,10 +193,13 @@ def _plan(prop, T):
                 dict(flavour="rel", suite="seg-bulk", args=dict(mon="query", max_n=300000), shards=8),
                 dict(flavour="dbg", suite="seg-bulk", args=dict(mon="query", max_n=300000), shards=8),
                 miri("seg-random", 96, 8, T, mon="query", len=40),
+                exp_types("dbg", "query", "seg", "seg", T),
+                exp_types("rel", "query", "seg", "seg", T),
+                exp_types("miri", "query", "seg", "seg", T),
                 miri("seg-pairs", 1, 8, T, mon="query", variant=1, stride=528),
             ],
             rule="evaluation = one iter_by_range (fully or partially consumed) compared as a multiset with {v : exp(v) >= t and buckets(v) meet buckets(query)}; distinct non-trivial = distinct (insert range, query range) pairs on the 32-point domain + distinct (stored bucket ranges, query buckets, exp==t flags) with a non-empty expected answer",
-            require={"op_query_full": 300000, "op_query_partial": 2000, "query_with_value_expiring_exactly_at_t": 5000, "query_over_expired_value": 5000, "query_with_2plus_expected": 5000, "histories_on_domains_with_more_points_than_i64_max": 1000},
+            require={"typed_seg_queries_compared": 500000, "op_query_full": 300000, "op_query_partial": 2000, "query_with_value_expiring_exactly_at_t": 5000, "query_over_expired_value": 5000, "query_with_2plus_expected": 5000, "histories_on_domains_with_more_points_than_i64_max": 1000},
             exhaustive_claim=True,
             exhaustive_scope="all 528 x 528 (insert range, query range) pairs on the domain [0,31], in two variants (no expiry; expirations t-1 / t / later with repeated and partial queries)",
             assumptions=["independent bucket function (x-lo) >> s with s least such that 32*2^s >= len", "in-domain ranges, non-decreasing query times between clears"],
@@ -250,6 +268,7 @@ def _plan(prop, T):
                 dict(flavour=fl, suite="key-closure", args=dict(mon="export", sets="3:2:8,4:2:0,4:3:1,5:2:9", nojudge=1), shards=4),
                 dict(flavour=fl, suite="ord-closure", args=dict(mon="lookup,handle,steps", sets="maptree:6:8,settree:6:0,maptree:5:1,settree:7:9", nojudge=1), shards=4),
                 dict(flavour=fl, suite="sweep-line", args=dict(mon="none", smon="none", seg=1, nojudge=1), shards=4, budget=80 * scale),
+                dict(flavour=fl, suite="exp-types", args=dict(mon="none", kinds="key,seg", coll="both", nojudge=1), shards=4, budget=600 * scale * (6 if T else 1), seed_offset=78),
             ]
         jobs += [
             dict(flavour="rel", suite="export-size", args=dict(max_n=300000, nojudge=1), shards=8, mem_limit=8 * GB),
@@ -269,6 +288,7 @@ def _plan(prop, T):
             miri("ord-random", 60, 6, T, mon="none", coll="maptree+settree+maplist+setlist+settree-int", nojudge=1, **MIRI_ORD),
             miri("seg-random", 60, 4, T, mon="none", len=40, nojudge=1),
             miri("seg-domains", 1, 4, T, grid_len=20, grid_lo=1, parts="g", nojudge=1),
+            miri("exp-types", 1, 6, T, mon="none", kinds="key,seg", coll="both", len=48, nojudge=1),
             miri("key-closure", 1, 2, T, mon="export", sets="2:2:8,2:2:0", nojudge=1),
             miri("ord-closure", 1, 2, T, mon="lookup,handle,steps", sets="maptree:3:8,settree:3:0", nojudge=1),
         ]
@@ -329,10 +349,13 @@ def _plan(prop, T):
                 ord_random("rel", "lookup,handle,steps", "maplist+setlist", 6400, T),
                 dict(flavour="dbg", suite="sweep-line", args=dict(mon="pred,get,empty", coll="list"), shards=4, budget=80),
                 miri("key-random", 64, 4, T, mon="pred,get,export,empty", coll="list", **MIRI_KEY),
+                exp_types("dbg", "pred,get,export,empty", "key", "list", T),
+                exp_types("rel", "pred,get,export,empty", "key", "list", T),
+                exp_types("miri", "pred,get,export,empty", "key", "list", T),
                 miri("ord-random", 40, 4, T, mon="lookup,handle,steps", coll="maplist+setlist", **MIRI_ORD),
             ],
             rule="evaluation = one result of KeyExpList / MapList / SetList compared with the same reference models as the trees (handles are positions; steps past either end must give the empty sentinel); distinct non-trivial = distinct (reference contents, operation, probe)",
-            require={"pred_compared_entry": 20000, "get_compared_hit": 2000, "op_export": 2000, "lookup_compared_present": 100000, "handle_compared_entry": 20000, "step_compared_at_end": 2000, "step_compared_inner": 5000, "states": 5000},
+            require={"typed_pred_compared": 500000, "typed_get_compared": 300000, "typed_exports_compared": 10000, "pred_compared_entry": 20000, "get_compared_hit": 2000, "op_export": 2000, "lookup_compared_present": 100000, "handle_compared_entry": 20000, "step_compared_at_end": 2000, "step_compared_inner": 5000, "states": 5000},
             exhaustive_scope="KeyExpList: closure to a fixpoint over the listed key universes (state = buffer content + cached earliest expiration, through the verif_state hook); MapList / SetList: every subset of the listed key universes x every probe / handle operation / neighbour step; larger universes: sampled histories",
             assumptions=["reference models as for C01/C04-C09"],
         )
@@ -377,9 +400,11 @@ def _plan(prop, T):
                 dict(flavour="dbg", suite="sweep-line", args=dict(mon="none", smon="purge", seg=1, coll="tree"), shards=8, budget=160),
                 dict(flavour="rel", suite="seg-bulk", args=dict(mon="purge", max_n=300000), shards=8),
                 dict(flavour="dbg", suite="seg-bulk", args=dict(mon="purge", max_n=300000), shards=8),
+                exp_types("dbg", "purge", "seg", "seg", T),
+                exp_types("rel", "purge", "seg", "seg", T),
             ],
             rule="evaluation = one hooked dump after a fully consumed query: after a whole-domain query at t no stored copy has expiration < t and the copy count equals the copies of unexpired values; after a partial query no expired copy remains in any scanned list; after every operation no unexpired value has lost a copy; distinct non-trivial = distinct (stored bucket ranges, query) cases",
-            require={"purge_checked_after_whole_domain_query": 50000, "purge_checked_after_partial_domain_query": 50000, "query_over_expired_value": 50000},
+            require={"typed_seg_purges_checked": 100000, "purge_checked_after_whole_domain_query": 50000, "purge_checked_after_partial_domain_query": 50000, "query_over_expired_value": 50000},
             exhaustive_scope="sampled histories; the 528x528 pairs in the expiring variant",
             assumptions=["dump hook is faithful", "independent visit set: leaves of the query range and all their ancestors"],
         )
